@@ -360,7 +360,7 @@ def check_C01(ctx, replay=None):
         ctx.regen_failed = "regeneration failed: " + log[-2000:]
     check_core_policy(ctx, "C01", "C01.v", ["C01_first_matching_group", "C01_errno_carries_eperm", "C01_other_actions_exact",
                                             "C01_lists_means_name_with_that_number", "C01_first_in_policy_order", "C01_source_group_is_the_model",
-                                            "C01_source_return_value_is_the_model"],
+                                            "C01_source_return_value_is_the_model", "C01_source_policy_is_the_model"],
                       ["names", "names", "names", "names_long", "names_long", "whole_table", "degenerate", "degenerate", "mixed", "cond"],
                       "name-only policies (1..6 groups, 0..|table| names, all four tables, both byte orders) and, at a share of one in five, policies whose groups also hold conditional entries (an entry whose conditions fail does not list the syscall: a later group does), compiled by the implementation and the extracted model (instruction-exact comparison); every accepted program run on partition events (numbers of all listed names +-1, boundary numbers, foreign architectures) against the extracted decide; non-trivial = accepted policy with events evaluated",
                       replay=replay, gen=gen)
@@ -719,6 +719,6 @@ def check_C07(ctx, replay=None):
 
 C07_THEOREMS = ["C07_defects_are_these", "C07_reject_iff", "C07_error_class", "C07_accepts", "C07_generated_code_assembles",
                 "C07_no_rule_dropped", "C07_unsupported_arch", "C07_records_with_tables", "C07_source_validation_is_the_model",
-                "C07_source_conditions_check_is_the_model", "C07_nonvacuous"]
+                "C07_source_conditions_check_is_the_model", "C07_source_policy_validation_is_the_model", "C07_nonvacuous"]
 
 CHECKS.update({"C02": check_C02, "C03": check_C03, "C04": check_C04, "C05": check_C05, "C07": check_C07})
